@@ -181,6 +181,15 @@ extern "C" void h_trans() {
     mk<A_K, A_LEN, A_N, A_TK>(sa, ta, a);
     mk<B_K, B_LEN, B_N, B_TK>(sb, tb, b);
     mk<C_K, C_LEN, C_N, C_TK>(sc, tc, c);
+    // finding C15-ptr-right-operand: triples that mix pointers and non-pointers are not transitive today (a > p, p > a)
+    const bool mixed3 = ((A_K == 1) != (B_K == 1)) || ((B_K == 1) != (C_K == 1));
+#ifdef KF_ONLY_C15_ptr_right_operand
+    vf_assume(mixed3);
+#endif
+#ifdef KF_EXCL_C15_ptr_right_operand
+    if (!mixed3)
+#endif
+    {
     if ((*a.v < *b.v) && (*b.v < *c.v)) vf_assert(*a.v < *c.v, 1);
     if ((*a.v > *b.v) && (*b.v > *c.v)) vf_assert(*a.v > *c.v, 2);
     if ((*a.v <= *b.v) && (*b.v <= *c.v)) vf_assert(*a.v <= *c.v, 3);
@@ -193,6 +202,7 @@ extern "C" void h_trans() {
         if (L_KIND(A_K, A_TK, C_K) > R_KIND(A_K, C_K, C_TK)) ac = false;
 #endif
         if (ab && bc) vf_assert(ac, 5);
+    }
     }
     unmk(a);
     unmk(b);
